@@ -480,6 +480,13 @@ def run_reference(spec, inputs, creates=None, setup_world=None):
         w.addr_oracle = oracle
     if setup_world is not None:
         setup_world(w)
+    if spec.get("cheats"):
+        from mc import refcheats
+
+        tape = spec.get("tape")
+        refcheats.install(w, tape=[val_of(t, inputs) for t in tape] if tape is not None else None)
+        for a_hex, blk in (spec.get("block") or {}).items():
+            w.block[a_hex] = blk
     data = b""
     for p in spec.get("calldata", []):
         if p[0] == "sym":
@@ -494,6 +501,12 @@ def run_reference(spec, inputs, creates=None, setup_world=None):
         return ("Unsupported", str(e), []), w
     except refevm.Discard:
         return ("Discard", b"", []), w
+    except Exception as e:
+        if type(e).__name__ == "TestFailed":
+            return ("FailCheatcode", b"", []), w
+        if type(e).__name__ == "CheatError":
+            return ("CheatError", str(e), []), w
+        raise
     logs = [(a, t, d) for (a, t, d) in w.logs] if ok else []
     return (err, ret, logs), w
 
